@@ -414,6 +414,13 @@ def run(ck):
     apc = [f_ for f_ in prog.funcs.values() if f_.base == "Pistache::AddressParser::AddressParser" and f_.blocks]
     ini = lib.single(prog, "Pistache::Address::init")
     handled = {b_.term.get("rconst") for b_ in ini.blocks.values() if b_.term and b_.term.get("cmp") in ("==", "!=") and "family" in (b_.term.get("cond") or "") and isinstance(b_.term.get("rconst"), int)}
+    # (`switch (parser.family()) { case AF_INET6: .. case AF_INET: .. }`: the labels are the comparisons)
+    for b_ in ini.blocks.values():
+        if (b_.term or {}).get("k") == "switch" and "family" in str(b_.term.get("cond") or ""):
+            for s_ in b_.succs:
+                lab_ = (ini.blocks[s_].label or {}) if s_ in ini.blocks else {}
+                if lab_.get("k") == "case" and isinstance(lab_.get("const"), int):
+                    handled.add(lab_["const"])
     ck.require(apc and len(handled) >= 2, "AddressParser constructor / family tests of Address::init not found (%s)" % sorted(handled))
     nfam = 0
     for f_ in apc:
